@@ -45,6 +45,13 @@ inductive PSrc where
   | old | new
   deriving DecidableEq, Repr
 
+/-- how a `contextualize` block is left: normally, by an exception that is an `Exception`, or by a
+`BaseException` that is not (`KeyboardInterrupt`, `SystemExit`, `GeneratorExit`,
+`asyncio.CancelledError`) -/
+inductive ExitKind where
+  | normal | exception | baseException
+  deriving DecidableEq, Repr
+
 /-- the three trailing phases of `Logger._log` -/
 inductive Phase where
   | corePatcher | patchers | handlers
